@@ -95,11 +95,11 @@ fn main() {
             (Base { text: t.to_string(), vars: v.clone(), direct: *d, shape: "corpus" }, p.clone())
         } else {
             let base = gen_base(&mut r);
-            let sc = Scope { vars: base.vars.clone(), params: params_v.clone() };
+            let sc = Scope { vars: base.vars.clone(), params: params_v.clone(), kvals: graph_values(&ld.g) };
             let allow_errors = r.chance(1, 6);
             let depth = 1 + r.below(3) as u32;
             let mut g = ExGen::new(&mut r, &sc, allow_errors);
-            let p = g.pred(depth);
+            let p = if base.direct && g.r.chance(1, 3) { g.pushdown_pred() } else { g.pred(depth) };
             for (k, v) in g.kinds { *kinds.entry(k).or_insert(0) += v; }
             (base, p)
         };
